@@ -593,6 +593,22 @@ def run(ctx):
                           {'pipeline': name, 'function': fq, 'bound': k, 'lag': worst[0], 'at_output_row': worst[1]})
     ctx.extra['pull_shape_tie'] = {'operators_tied': tied, 'functions_with_bound': sum(1 for v in shapes.values() if v is not None), 'functions': len(shapes)}
 
+    # grouping operators told that the input is sorted stream group by group — and within a group row by row when the mapper does
+    for name, mk, lim in (
+            ('rowgroupmap(presorted, one group)', lambda s: etl.rowgroupmap(etl.addfield(s, 'g', 0), 'g', lambda k, rows: ((r[0], r[1]) for r in rows), header=['a', 'b'], presorted=True), 3),
+            ('rowgroupmap(presorted, groups of 2)', lambda s: etl.rowgroupmap(etl.addfield(s, 'g', lambda r: r[0] // 2), 'g', lambda k, rows: ((r[0],) for r in rows), header=['a'], presorted=True), 4),
+            ('aggregate(presorted, groups of 2)', lambda s: etl.aggregate(etl.addfield(s, 'g', lambda r: r[0] // 2), 'g', len, presorted=True), 4)):
+        for k in (1, 3, 6):
+            res = []
+            for n in (N1, N2):
+                a = TableSrc(n, 11, False, row=lambda i: (i, 'x-%d' % i, i * 2))
+                out = consume(etl, mk(a), 'islice', k)
+                res.append((out, a.pulls))
+            ctx.case((name, 'presorted-groups', k))
+            ctx.count('kind:presorted-groups')
+            if res[0] != res[1] or res[1][1] > 2 * k + lim:
+                ctx.spec_fail('%s|pulls-depend-on-length' % name.split('(')[0], '%s: %d rows requested, %d pulls from %d rows and %d pulls from %d rows (allowed 2k+%d)'
+                              % (name, k, res[0][1], N1, res[1][1], N2, lim), {'pipeline': name, 'k': k})
     # pass-through views with a batch size: consuming more rows than one batch must not make them measure the whole source
     for name, mk in (('progress', lambda s: etl.progress(s, 1000, out=open(os.devnull, 'w'))), ('progress(batch=10)', lambda s: etl.progress(s, 10, out=open(os.devnull, 'w'))),
                      ('log_progress', lambda s: etl.log_progress(s, 1000, logger=__import__('logging').getLogger('petl_c02_null'))),
